@@ -111,7 +111,7 @@ theorem encrypt_length (pr : Prims) (hp : PrimsOK pr) (pub : Pt) (msg ct : Bytes
   have lx := natBEpad32_length_of_lt_P (valid_lt (valid_smulG d)).1
   have ly := natBEpad32_length_of_lt_P (valid_lt (valid_smulG d)).2
   have hl : ct.length = 118 + (Ecies.addPKCSPadding msg).length := by
-    rw [hct, layout_length hiv lx ly (hp.hmac256_len _ _), hp.cbc_len]
+    rw [hct, layout_length hiv lx ly (hp.hmac256_len _ _), hp.cbc_len _ _ _ (addPKCS_length_mod msg)]
   have h1 := addPKCS_length_mod msg
   have h2 := addPKCS_length_ge msg
   exact ⟨hl, by omega, by omega⟩
@@ -153,8 +153,8 @@ theorem decrypt_encrypt (pr : Prims) (hp : PrimsOK pr) (x : Nat) (msg ct : Bytes
   have hkl : (keyE pr d (smul x G)).length = 32 := by
     simp [keyE, hp.sha512_len]
   rw [hct, decrypt_layout pr x (smul d G) hiv lx ly (hp.hmac256_len _ _)
-    (by rw [hp.cbc_len]; exact addPKCS_length_ge msg)
-    (by rw [hp.cbc_len]; exact addPKCS_length_mod msg) hq]
+    (by rw [hp.cbc_len _ _ _ (addPKCS_length_mod msg)]; exact addPKCS_length_ge msg)
+    (by rw [hp.cbc_len _ _ _ (addPKCS_length_mod msg)]; exact addPKCS_length_mod msg) hq]
   rw [hkE, hkM, if_pos rfl, hp.cbc_inv _ _ _ hkl hiv (addPKCS_length_mod msg)]
   exact removePKCS_add msg
 
